@@ -499,4 +499,7 @@ func c26GenFamilies(thorough bool, emit c26EmitFn) {
 	c26GenChains(thorough, emit)
 	c26GenQuoting(thorough, emit)
 	c26GenLoops(thorough, emit)
+	c26GenRedir(thorough, emit)
+	c26GenFunc(thorough, emit)
+	c26GenBuiltin(thorough, emit)
 }
